@@ -10,7 +10,7 @@ from harness.props import c01
 from harness.props.c04 import compare_factor
 
 OBLIGATIONS = [
-    "PgmVerif.C02_update_preserves_measure", "PgmVerif.C02_two_clique_exact", "PgmVerif.C02_sepset_agreement_after_update",
+    "PgmVerif.C02_update_preserves_measure", "PgmVerif.C02_calibrated_fixed_point", "PgmVerif.C02_two_clique_exact", "PgmVerif.C02_sepset_agreement_after_update",
     "PgmVerif.C02_calibrated_tree_exact", "PgmVerif.C02_calibrated_tree_marginal",
     "PgmVerif.C02_max_calibrated_tree_exact",
 ]
